@@ -540,8 +540,14 @@ func newVFixture(in VIn, scheme signature.SigningScheme, vc vcase) *vfixture {
 
 	// --- plugin situation ---
 	if in.Plugin != "none" && in.Plugin != "" {
-		fx.extAttrs = append(fx.extAttrs, pluginAttrs(pluginName, "1.0.0")...)
-		p := &mockPlugin{name: pluginName, version: "1.2.0", verdicts: map[pf.Capability]string{
+		// the signature demands version 1.0.0 at least (sometimes it states no minimum); a usable plugin reports a version that
+		// is higher, equal, equal with build metadata, numerically (not lexically) higher, or a pre-release of a higher version
+		minVer := "1.0.0"
+		if in.Plugin != "tooLow" && vc.sigMut%7 == 3 {
+			minVer = ""
+		}
+		fx.extAttrs = append(fx.extAttrs, pluginAttrs(pluginName, minVer)...)
+		p := &mockPlugin{name: pluginName, version: []string{"1.2.0", "1.0.0", "1.0.0+build.5", "10.0.0", "1.0.1-rc.1"}[vc.sigMut%5], verdicts: map[pf.Capability]string{
 			pf.CapabilityTrustedIdentityVerifier: in.VerdictTI, pf.CapabilityRevocationCheckVerifier: in.VerdictREV}}
 		fx.plugin = p
 		fx.manager = &mockManager{plugins: map[string]*mockPlugin{pluginName: p}}
@@ -550,7 +556,8 @@ func newVFixture(in VIn, scheme signature.SigningScheme, vc vcase) *vfixture {
 		case "notInstalled":
 			fx.manager.plugins = map[string]*mockPlugin{"someother": p}
 		case "tooLow":
-			p.version = "0.9.9"
+			// lower: an older release, a PRE-release of the demanded version, numerically lower though lexically higher
+			p.version = []string{"0.9.9", "1.0.0-rc.1", "0.10.0", "1.0.0-alpha+build"}[vc.sigMut%4]
 			p.caps = []pf.Capability{ti, rv}
 		case "noCap":
 			p.caps = []pf.Capability{pf.CapabilitySignatureGenerator}
